@@ -50,6 +50,17 @@ PROPS = {
                         "parser/resolver recursion depth, fmt-based rendering text, arena exhaustion while rendering very many diagnostics."),
         "trusted_base": [VERUS_TRUST, "three facts about valid UTF-8 (see unit scanner: utf8_ok, first_char, first_char_len)", "memchr_rs::memchr2 behaves as documented"],
     },
+    "C10": {
+        "level": "proof",
+        "design_ref": "DESIGN.md section 5, C10",
+        "summary": ("Layout insignificance, lexer half: the contracts of the real skip_whitespace (skips exactly a maximal run of "
+                    "space/tab/LF/FF/CR), skip_comment (consumes exactly up to and including the first LF or CR), try_consume_word "
+                    "(any run of layout bytes between the words of a multi-word keyword; nothing consumed on failure) and "
+                    "scan_identifier_or_keyword (exact rollback after a failed lookahead) are verified by Verus for all inputs."),
+        "not_covered": ("that statement boundaries depend on token kinds only is a two-run non-interference property of the 1300-line "
+                        "parser and is not expressible as a per-function contract here; string-token payloads; redundant parentheses."),
+        "trusted_base": [VERUS_TRUST, "three facts about valid UTF-8 (see unit scanner)", "memchr_rs::memchr2 behaves as documented"],
+    },
 }
 
 
